@@ -192,9 +192,10 @@ CHECKS = {
         "wrapper [index, body] a definite array), decTy t (encW w ++ rest) = ok (withDefaults t v) rest. Proof: mutual structural induction (rf_dec / rf_fields / rf_vars) over the "
         "schema; a generic engine for the four loops of gen_statements on arbitrary item bytes (arrLoopN_X / arrLoopI_X / mapLoopN_E / mapLoopI_E with fuel adequacy, "
         "fieldsDec_arrN/arrI/mapN/mapI), body_reframed, enum_reframed, width-generic accessor theorems of C04/C05, first-byte facts of valid trees (startNB_encW, startOk_encW). "
-        "The full statement derive_decode_reframed_statement (any valid tree with the documented value and unchunked strings) is kept with its machine-checked refutation by K8 "
-        "(derive_decode_reframed_counterexample_K8, derive_decode_reframed_statement_false, derive_enum_indefinite_wrapper_rejected); reframed_examples: the K8 tree is not in "
-        "`reframes`, the same tree with a definite wrapper is, and concrete trees with all heads widened and indefinite bodies are. "
+        "The enum wrapper [index, body] may be definite or INDEFINITE (the generated decoder rejected the latter until the repair of K8 in /repo; the former counterexample is the positive "
+        "obligation derive_decode_reframed_K8_repaired; a definite wrapper of another length is still an error: derive_enum_wrong_wrapper_length); reframed_examples: concrete trees with all heads "
+        "widened, indefinite bodies and indefinite wrappers are in `reframes`. The full statement derive_decode_reframed_statement (any valid tree with the documented value and unchunked "
+        "strings) is kept as a definition; it is proved with `reframes` as ONE extra decidable hypothesis. "
         "The relation is tied to the documented format in both directions: reframes_sound (every tree in the relation has value w = specTy t v and no chunked strings, so the "
         "theorem is the statement plus ONE decidable hypothesis: derive_decode_reframed_partial2) and reframes_preferred (the preferred tree of specTy t v, whose bytes are the "
         "derived encoding by C08, is in the relation for every schema and value; derive_roundtrip_from_reframed re-derives the round trip from the re-framing theorem). "
@@ -207,8 +208,7 @@ CHECKS = {
         "accepted generated definition (which decode / nil functions are bound, absent fields, own bytes).",
    design="5/C09", technique="Lean 4 proof (slot invariant over the decode loops with per-index results, mutual structural induction, executable re-framing relation on wire trees) + "
         "generated-crate differential correspondence with in-orchestrator oracle",
-   note="Re-framed input is a theorem for the relation `reframes`; what it leaves out of the unrestricted statement is exactly what the generated decoders reject: an "
-        "indefinite-length enum wrapper (known finding K8, machine-checked) and chunked strings (by design). `reframes` is defined by recursion on the schema (it reads the tree "
+   note="Re-framed input is a theorem for the relation `reframes`; what it leaves out of the unrestricted statement that `reframes` leaves out on purpose is chunked strings (rejected by the String / byte-string decoders by design). `reframes` is defined by recursion on the schema (it reads the tree "
         "along the type); that it implies `value w = specTy t v` and contains the preferred tree of every value is checked on examples by `decide` (reframed_examples), not proved "
         "in general. `noClash` (the Some(x)=null exclusion) also demands that datatype() does not fail on the first byte of an encoding (always true; kept as a decidable "
         "hypothesis); `reframes` needs no such hypothesis (a Some(x) re-framed as null is not in the relation). The theorem files are Thm/C09Round.lean (round trip, errors, "
